@@ -10,3 +10,4 @@
 #define HAVE_C16 1
 #define HAVE_C17 1
 #define HAVE_C18 1
+#define HAVE_C12 1
